@@ -15,7 +15,7 @@ def run(rep):
     fw.add_smt(rep, lemmas.prove_frame(), 'spec.L-SU-FRAME')
     fw.add_smt(rep, lemmas.specsync(24 if rep.tier == 'quick' else 200, rep.seed), 'spec.sync', 'sync')
     rep.lemmas.append('L-SU-FRAME: proved by induction over the definitions of su/sud/sum/sulk (4 obligations, SMT)')
-    n = 50000 if rep.tier == 'quick' else 400000     # quick: the whole size-3 universe
+    n = 60000 if rep.tier == 'quick' else 400000     # quick: the whole size-3 universe
     size = 3 if rep.tier == 'quick' else 4
     fw.standin(rep, 'real_terms.py', ['search', size, n, rep.seed], 'refutation search: real unify/unify_arrays/get_value vs spec mirror',
                'term pairs up to %d nodes, <=3 earlier active unifications, %d cases' % (size, n))
